@@ -144,8 +144,13 @@ type Case struct {
 	// Interfere > 0: when answer InterfereK (a retryable one) has been given, i.e. while the
 	// case's export waits for its retry, that many exports of a DIFFERENT payload are made
 	// through a second exporter instance of the same kind and options to the same collector.
-	Interfere  int `json:"interfere,omitempty"`
-	InterfereK int `json:"interfere_k,omitempty"`
+	Interfere int `json:"interfere,omitempty"`
+	// AgeMS: pause between constructing/starting the exporter and the case's export call.
+	// Warmup: a first export, answered with success, is made through the same exporter
+	// instance before that pause.
+	AgeMS      int  `json:"age_ms,omitempty"`
+	Warmup     bool `json:"warmup,omitempty"`
+	InterfereK int  `json:"interfere_k,omitempty"`
 }
 
 const (
@@ -158,7 +163,8 @@ const (
 	quietJitter     = 25 * time.Millisecond // a run whose canary timers were later than this is "noisy"
 	shortTimeout    = 2000                  // ms: timeouts up to this are "short" (may legitimately cut attempts)
 	shutdownGrace   = 50 * time.Millisecond
-	abortSlack      = 3 * time.Second // Shutdown deadline + this: Shutdown and the aborted Export must both be back
+	budgetMargin    = 100 * time.Millisecond // "well inside MaxElapsedTime" for gave_up_although_budget_allows
+	abortSlack      = 3 * time.Second        // Shutdown deadline + this: Shutdown and the aborted Export must both be back
 )
 
 // ---------------------------------------------------------------------
@@ -432,7 +438,7 @@ func genCase(isGRPC bool) func(*rapid.T) Case {
 			c.RetryEnabled, c.InitialMS, c.MaxIntervalMS = true, 1, 5
 			c.MaxElapsedMS = oneOf(t, "max_elapsed_ms", elapsed...)
 		}
-		scenario := pick(t, "scenario", 46, 10, 4, 10, 16, 14, 8, 8)
+		scenario := pick(t, "scenario", 46, 10, 4, 10, 16, 14, 8, 8, 7)
 		switch scenario {
 		case 0: // plain
 			if rng(t, "retry_disabled", 0, 6) == 0 {
@@ -490,6 +496,14 @@ func genCase(isGRPC bool) func(*rapid.T) Case {
 				fast(0, 5000)
 				c.TimeoutMS = oneOf(t, "timeout_ms", 0, 30000)
 			}
+		case 8:
+			// an exporter that is older than its MaxElapsedTime when the export is
+			// made (the budget is per export call), optionally after an earlier,
+			// successful export through the same instance
+			c.RetryEnabled, c.InitialMS, c.MaxIntervalMS = true, 1, 5
+			c.MaxElapsedMS = oneOf(t, "max_elapsed_ms", 300, 500)
+			c.AgeMS = c.MaxElapsedMS + 150
+			c.Warmup = rapid.Bool().Draw(t, "warmup")
 		case 7:
 			// an interfering export through a second exporter instance while
 			// the case's export waits (200..600 ms) for its retry
@@ -529,6 +543,9 @@ func genCase(isGRPC bool) func(*rapid.T) Case {
 			}
 			c.PlanK = rng(t, "plan_k", 0, maxK)
 		}
+		if c.AgeMS > 0 && n < 2 {
+			n = 2
+		}
 		if c.Interfere > 0 {
 			if n < 2 {
 				n = 2
@@ -559,6 +576,11 @@ func genCase(isGRPC bool) func(*rapid.T) Case {
 				if isGRPC && !slowBackoff && rapid.Bool().Draw(t, "long_wait") {
 					st.RetryInfoMS = 300 // makes the wait long enough for the plan to land inside it
 				}
+			case c.AgeMS > 0 && i == 0:
+				st = g.retryableStep(t)
+				if st.RetryInfoMS > 30 {
+					st.RetryInfoMS = 30
+				}
 			case c.Interfere > 0 && i <= c.InterfereK:
 				st = g.retryableStep(t)
 				if st.RetryInfoMS > 30 {
@@ -579,7 +601,7 @@ func genCase(isGRPC bool) func(*rapid.T) Case {
 		// delay, MaxElapsedTime is 500 ms. After the second answer the elapsed
 		// time plus the hint exceeds the budget: the exporter has to give up
 		// instead of sleeping through the hint and sending a third attempt.
-		if isGRPC && c.Plan == "none" && c.Interfere == 0 && c.RetryEnabled && c.TimeoutMS == 0 && rng(t, "hint_budget", 0, 7) == 0 {
+		if isGRPC && c.Plan == "none" && c.Interfere == 0 && c.AgeMS == 0 && c.RetryEnabled && c.TimeoutMS == 0 && rng(t, "hint_budget", 0, 7) == 0 {
 			c.InitialMS, c.MaxIntervalMS, c.MaxElapsedMS = 1, 5, 500
 			k := rng(t, "hint_budget_len", 2, 4)
 			c.Script = nil
@@ -663,6 +685,9 @@ func finite(c Case) bool {
 	if c.ShutdownMS < 0 || c.ShutdownMS > 2000 || c.Headers < 0 || c.Headers > 2 {
 		return false
 	}
+	if c.AgeMS < 0 || c.AgeMS > 2000 || ((c.AgeMS > 0 || c.Warmup) && c.Plan != "none") {
+		return false
+	}
 	if c.Interfere != 0 && (c.Interfere < 0 || c.Interfere > 2 || c.Plan != "none" || c.InterfereK < 0 || c.InterfereK >= len(c.Script)) {
 		return false
 	}
@@ -744,6 +769,8 @@ type observation struct {
 	cleanupStuck     bool          // closing the collector / the final Shutdown did not finish in time (harness side)
 	interf           []entry       // requests of the interfering exporter
 	interfErrs       []error       // results of the interfering exports
+	warmErr          error         // result of the warm-up export
+	warmSeen         int           // requests the collector saw during the warm-up export
 	planFired        bool
 	handled          []string
 	tag              string
@@ -850,6 +877,17 @@ func execute(c Case) (ob observation) {
 		mu.Lock()
 		ob.shutdownAt = t
 		mu.Unlock()
+	}
+	if c.Warmup {
+		col.warm.Store(true)
+		wctx, wc := context.WithTimeout(context.Background(), 5*time.Second)
+		ob.warmErr = h.export(wctx)
+		wc()
+		col.warm.Store(false)
+		ob.warmSeen = int(col.warmSeen.Load())
+	}
+	if c.AgeMS > 0 {
+		time.Sleep(time.Duration(c.AgeMS) * time.Millisecond)
 	}
 	if c.Interfere > 0 {
 		var ionce sync.Once
@@ -1084,6 +1122,9 @@ func evaluate(c Case, ob observation) []vk.Violation {
 			bad("interfering_export_failed", "interfering export %d through a second exporter instance returned %v (the collector answers it with success)", i, err)
 		}
 	}
+	if c.Warmup && ob.warmErr != nil && ob.warmSeen > 0 {
+		bad("error_result_after_success", "the first export through this exporter returned %q although the collector answered it with success", ob.warmErr)
+	}
 	if ob.returned && len(ob.interf) != len(ob.interfErrs) {
 		bad("interfering_export_lost", "%d interfering exports were made, the collector received %d of them", len(ob.interfErrs), len(ob.interf))
 	}
@@ -1206,6 +1247,23 @@ func evaluate(c Case, ob observation) []vk.Violation {
 	if last != nil && last.Outcome == oTempNetErr && c.RetryEnabled && c.MaxElapsedMS == 0 && undisturbed {
 		bad("no_retry_after_temporary_network_error", "Export gave up (%v) after a temporary network error (%s) with retrying enabled and no time limit", ob.err, last.Desc)
 	}
+	// The budget belongs to THIS export call: if the call ended with a retryable
+	// outcome although, measured generously from outside (from just before
+	// Export was called until it had returned), the time spent plus the
+	// requested delay / one back-off interval was still well inside
+	// MaxElapsedTime, it did not give up because "the configured maximum elapsed
+	// time would be exceeded". Whatever the client measures for this call is at
+	// most what is measured here, so a slow machine can only make the premise
+	// false, never the conclusion wrong.
+	if last != nil && (last.Outcome == oRetryable || last.Outcome == oTempNetErr) && c.RetryEnabled && c.MaxElapsedMS > 0 && undisturbed && orderReliable {
+		need := oneBackoff
+		if last.Hint > need {
+			need = last.Hint
+		}
+		if spent := ob.ret - ob.start; spent+need+budgetMargin <= maxElapsed {
+			bad("gave_up_although_budget_allows", "Export gave up (%v) after a retryable outcome (%s): the whole call took %v, the next attempt was due after at most %v, MaxElapsedTime is %v", ob.err, last.Desc, spent, need, maxElapsed)
+		}
+	}
 	// partial success reporting
 	want := ""
 	var rejected int64
@@ -1295,6 +1353,17 @@ func classify(c Case, ob observation) vk.Info {
 	}
 	info.ClassIf(c.Gzip, "gzip")
 	info.Class(fmt.Sprintf("headers=%d", c.Headers))
+	if c.AgeMS > 0 {
+		kind := "aged_exporter"
+		if c.Warmup {
+			kind = "aged_exporter_after_successful_first_export"
+		}
+		info.Class(kind)
+		info.Class(fmt.Sprintf("%s:%s(age %dms > max_elapsed %dms)", c.Exporter, kind, c.AgeMS, c.MaxElapsedMS))
+		if len(es) > 1 && es[0].Outcome == oRetryable {
+			info.Class(c.Exporter + ":aged_exporter_retried_within_its_own_budget")
+		}
+	}
 	info.ClassIf(c.Interfere > 0, fmt.Sprintf("interfering_exports=%d(received %d)", c.Interfere, len(ob.interf)))
 	info.ClassIf(c.Interfere > 0 && c.Gzip, "interfering_export_with_gzip")
 	info.ClassIf(c.TimeoutMS > 0 && c.TimeoutMS <= shortTimeout, "short_timeout")
@@ -1488,7 +1557,7 @@ var known = map[string]func(Case, vk.Violation) bool{
 }
 
 const ruleCommon = "one export per case against a scripted loopback collector; script of 1..7 answers, retry config {disabled, 1ms/5ms backoff with MaxElapsedTime 0/20ms/500ms/5s, 400ms backoff, 10min backoff}, " +
-	"exporter timeout {default, 15s/30s, 100/200ms with held requests}, gzip on/off, WithHeaders with 0/1/2 pairs, optionally 1-2 interfering exports of another payload through a second exporter instance while the export waits for its retry, plan {none, ctx cancelled before, cancel while attempt K is held, cancel / Shutdown after answer K, and for the two trace exporters Shutdown(200/300 ms deadline) during a 10 min back-off wait / a held attempt}; " +
+	"exporter timeout {default, 15s/30s, 100/200ms with held requests}, gzip on/off, WithHeaders with 0/1/2 pairs, exporter age (export made MaxElapsedTime(300/500ms)+150ms after construction, optionally after a first successful export on the same instance), optionally 1-2 interfering exports of another payload through a second exporter instance while the export waits for its retry, plan {none, ctx cancelled before, cancel while attempt K is held, cancel / Shutdown after answer K, and for the two trace exporters Shutdown(200/300 ms deadline) during a 10 min back-off wait / a held attempt}; " +
 	"non-trivial = the script contains a retryable answer followed by something; distinct = distinct case encodings"
 
 func TestHTTPRetry(t *testing.T) {
